@@ -194,7 +194,7 @@ inline constexpr void Conversion<Unit::Mass, Unit::Mass::Pound>::ToStandard(
 }
 
 template <typename NumericType>
-inline const std::map<Unit::Mass, std::function<void(NumericType* values, const std::size_t size)>>
+inline const ConversionTable<Unit::Mass, NumericType>
     MapOfConversionsFromStandard<Unit::Mass, NumericType>{
       {Unit::Mass::Kilogram,
        Conversions<Unit::Mass,                       Unit::Mass::Kilogram>::FromStandard<NumericType>},
@@ -205,9 +205,8 @@ inline const std::map<Unit::Mass, std::function<void(NumericType* values, const 
 };
 
 template <typename NumericType>
-inline const std::
-    map<Unit::Mass, std::function<void(NumericType* const values, const std::size_t size)>>
-        MapOfConversionsToStandard<Unit::Mass, NumericType>{
+inline const ConversionTable<Unit::Mass, NumericType>
+    MapOfConversionsToStandard<Unit::Mass, NumericType>{
           {Unit::Mass::Kilogram,
            Conversions<Unit::Mass,                       Unit::Mass::Kilogram>::ToStandard<NumericType>},
           {Unit::Mass::Gram,     Conversions<Unit::Mass, Unit::Mass::Gram>::ToStandard<NumericType>    },
